@@ -190,6 +190,7 @@ def cross_crs(run):
              ('utm35s/tmerc25', CRS.from_epsg(32735), tm(25), (150_000.0, -3_700_000.0)),
              ('tmerc27/utm35s', tm(27), CRS.from_epsg(32735), (500_000.0, 6_250_000.0))]
     k = 0
+    small_overhang(run, tmp)
     for name, scrs, rcrs, (rx0, rytop) in pairs:
         rres, rw, rh = 10.0, 400, 400
         rt = Affine(rres, 0, rx0, 0, -rres, rytop)
@@ -247,3 +248,83 @@ def cross_crs(run):
                             f'construction raised {got}')
                     run.fail(case, what, signature=dict(kind='cross-crs-accepted' if got == 1 else 'cross-crs', crs=name,
                                                         in_reprojected_bbox=bool(in_box)))
+
+
+def small_overhang(run, tmp):
+    """
+    A pair of CRSs without grid convergence at the site (UTM 35S on its central meridian against geographic coordinates): the
+    re-projected footprints are axis-parallel, so an overhang of about one reference pixel on one side must be rejected whatever
+    processing grid is requested (auto, src or ref), and a source one pixel inside must be accepted.
+    """
+    import warnings
+    import numpy as np
+    import rasterio as rio
+    from rasterio.crs import CRS
+    from rasterio.transform import Affine
+    from rasterio.warp import transform, transform_bounds
+    from homonim import RasterFuse, RasterCompare
+    from homonim.enums import ProcCrs
+    from homonim.errors import ImageContentError
+    scrs, rcrs = CRS.from_epsg(32735), CRS.from_epsg(4326)
+    rres, rw, rh = 1e-4, 300, 300
+    rx0, rytop = 27.0 - rres * rw / 2, -30.0 + rres * rh / 2      # centred on the central meridian of zone 35
+    rb = (rx0, rytop - rh * rres, rx0 + rw * rres, rytop)
+    rp = tmp / 'c16so_r.tif'
+    with rio.open(rp, 'w', driver='GTiff', width=rw, height=rh, count=1, dtype='float32', crs=rcrs, transform=Affine(rres, 0, rx0, 0, -rres, rytop),
+                  nodata=float('nan')) as ds:
+        ds.write(np.ones((1, rh, rw), dtype='float32'))
+    sres = 30.0
+    k = 0
+    # the source size varies: how a re-projected footprint is rounded to whole pixels depends on it
+    for side, amount, (sw, sh) in [(sd, am, sz) for sd in ('right', 'bottom', 'left', 'top') for am in (1.0, 1.25, -1.5)
+                                   for sz in ((37, 40), (33, 36), (35, 38), (38, 41), (34, 39))]:
+        if True:
+            # place the source so that the named edge of its footprint (in the reference CRS) is `amount` pixels beyond the edge
+            cx, cy = (rb[0] + rb[2]) / 2, (rb[1] + rb[3]) / 2
+            (ux,), (uy,) = transform(rcrs, scrs, [cx], [cy])
+            sx0, sy0 = ux - sw * sres / 2, uy + sh * sres / 2
+            for _ in range(4):      # fixed point: shift in metres by the remaining error in degrees
+                l, b, r_, t = transform_bounds(scrs, rcrs, sx0, sy0 - sh * sres, sx0 + sw * sres, sy0, densify_pts=21)
+                if side == 'right':
+                    err = (rb[2] + amount * rres) - r_
+                    sx0 += err * 96_500.0
+                elif side == 'left':
+                    err = l - (rb[0] - amount * rres)
+                    sx0 -= err * 96_500.0
+                elif side == 'top':
+                    err = (rb[3] + amount * rres) - t
+                    sy0 += err * 110_900.0
+                else:
+                    err = b - (rb[1] - amount * rres)
+                    sy0 -= err * 110_900.0
+            l, b, r_, t = transform_bounds(scrs, rcrs, sx0, sy0 - sh * sres, sx0 + sw * sres, sy0, densify_pts=21)
+            over = max(rb[0] - l, r_ - rb[2], rb[1] - b, t - rb[3]) / rres      # largest overhang in reference pixels
+            if abs(over - amount) > 0.1:
+                continue
+            sp = tmp / 'c16so_s.tif'
+            with rio.open(sp, 'w', driver='GTiff', width=sw, height=sh, count=1, dtype='float32', crs=scrs,
+                          transform=Affine(sres, 0, sx0, 0, -sres, sy0), nodata=float('nan')) as ds:
+                ds.write(np.ones((1, sh, sw), dtype='float32'))
+            for proc in ('auto', 'src', 'ref'):
+                for cls in (RasterFuse, RasterCompare):
+                    k += 1
+                    case = dict(i=850_000 + k, op='cross-crs small overhang', side=side, overhang_ref_px=round(over, 3), proc_crs=proc,
+                                cls=cls.__name__)
+                    try:
+                        with warnings.catch_warnings():
+                            warnings.simplefilter('ignore')
+                            cls(sp, rp, proc_crs=ProcCrs(proc))
+                        got = 1
+                    except ImageContentError:
+                        got = 0
+                    except Exception as ex:
+                        got = f'other:{type(ex).__name__}:{str(ex)[:60]}'
+                    run.evaluations += 1
+                    run.hist['cross-CRS small overhang / inside cases'] += 1
+                    run.nontrivial.add(('xcrs-small', side, amount, proc, cls.__name__))
+                    if got != (0 if over > 0 else 1):
+                        what = (f'source overhanging the reference {side} edge by {over:.2f} reference pixels (UTM 35S on geographic '
+                                f'coordinates, proc_crs={proc}) was accepted' if got == 1 else
+                                f'source {-over:.2f} reference pixels inside the reference ({side}, proc_crs={proc}) was rejected'
+                                if got == 0 else f'construction raised {got}')
+                        run.fail(case, what, signature=dict(kind='cross-crs-small', proc=proc, accepted=got == 1))
